@@ -222,6 +222,12 @@ func target(s *bug.Snapshot, t string) entity.Id {
 }
 
 // apply performs one API call on an entity-level bug (paths 1 and 2).
+// opTime: the wall-clock time written into the k-th operation after the creation. Nothing in the interpretation of a bug depends on
+// it (operations are ordered by the history, not by their authors' clocks): times run backwards, repeat, and lie before the creation.
+func opTime(create int64, k int) int64 {
+	return create + []int64{1, -7, 3, -3600, 0, 12, -1, 2, -86400 * 365, 5}[k%10]
+}
+
 func (e *env) apply(b bug.Interface, c Call, unix int64) error {
 	s := b.Compile()
 	i := len(s.Operations) + 1
@@ -339,7 +345,7 @@ func (w *worker) run(v Vec, withCache bool) string {
 	b, _, err := bug.Create(w.e.authors[1], unix, "title 1", "message 1", w.e.files(1, v.Calls[0].Wf), map[string]string{"k0": "own"})
 	hx.Must(err)
 	for k, c := range v.Calls[1:] {
-		if err := w.e.apply(b, c, unix+int64(k)+1); err != nil {
+		if err := w.e.apply(b, c, opTime(unix, k)); err != nil {
 			return fmt.Sprintf("memory: call %d (%s) failed: %v", k+2, c.K, err)
 		}
 	}
@@ -373,7 +379,7 @@ func (w *worker) run(v Vec, withCache bool) string {
 		}
 		for k, c := range v.Calls[1:] {
 			nbefore := len(cb.Snapshot().Operations)
-			if err := w.ce.applyCache(cb, c, unix+int64(k)+1); err != nil {
+			if err := w.ce.applyCache(cb, c, opTime(unix, k)); err != nil {
 				if (c.K == "edit" || c.K == "editsame") && len(cb.Snapshot().Operations) == nbefore {
 					return "" // the cache API refuses edits whose target is not a comment: nothing is appended, nothing to compare
 				}
@@ -506,7 +512,7 @@ func TraceCmd(args []string) {
 		ev := map[string]interface{}{"ev": "Seq", "calls": calls, "err": ""}
 		steps := []map[string]interface{}{w.e.slim(b.Compile())}
 		for k, c := range calls[1:] {
-			if err := w.e.apply(b, c, unix+int64(k)+1); err != nil {
+			if err := w.e.apply(b, c, opTime(unix, k)); err != nil {
 				ev["err"] = fmt.Sprintf("call %d (%s) failed: %v", k+2, c.K, err)
 				break
 			}
